@@ -20,8 +20,9 @@ CLAIMED = {
         "every connectable, Refs.all/portrefs/connrefs) for every finite history of connect (call / assignment / connect()), replace, "
         "disconnect and reference creation: back-references are exactly the inverse of conns (invariant), conns is the finite map the "
         "history denotes (refinement; last write wins, disconnect erases), histories with equal final maps leave equal back-reference "
-        "sets (no trace), the graph group discovery walks is the symmetric closure of the final map, set.remove never raises, references "
-        "only grow. Tied to the code by random histories over generated designs with the full state compared after every operation, and "
+        "sets (no trace), the graph group discovery walks is the symmetric closure of the final map and the group the depth-first follow "
+        "discovers from a port is exactly the set of ports linked to it in the final map (generic DFS-computes-component lemma), set.remove "
+        "never raises, references only grow. Tied to the code by random histories over generated designs with the full state compared after every operation, and "
         "by the package of the history-built design compared with Sem.src of the final map and with the package of the design built directly.",
         note="Model hand-written after hdl21/instance.py (connect/replace/disconnect/_get_portref/_get_connref/_to_array). What the passes make "
         "of that state is not a theorem: it is decided on the implementation per history (Sem.pkg = Sem.src in Lean; name-free package "
